@@ -241,6 +241,7 @@ class JoinMonitor(Monitor):
         super(JoinMonitor, self).__init__()
         self.w = world_ref
         self.starts = {}
+        self.completions = {}
 
     def _wfdef(self, rec, wf_ex_id):
         w = rec.rows['wf'].get(wf_ex_id)
@@ -300,6 +301,21 @@ class JoinMonitor(Monitor):
             if len(same) > 1:
                 self.fire('join %s has %d task executions in one run' % (
                     name, len(same)), mech='join-duplicated')
+        if b is not None and b['state'] not in COMPLETED and \
+                a['state'] in COMPLETED:
+            # a join completes (runs to an end, or fails as unreachable)
+            # once per run; later inbound branches must not re-arm it.
+            # Exempt: its own retry policy, and runs with a rerun request
+            # (a rerun inbound task legitimately re-arms a failed join).
+            self.evaluations += 1
+            n = self.completions[a['id']] = \
+                self.completions.get(a['id'], 0) + 1
+            if n > 1 and lang.policy(wfd, name, 'retry') is None and \
+                    not self.w().reran:
+                self.fire('join %s completed %d times in one run (now %s: '
+                          '%s)' % (name, n, a['state'],
+                                   (a.get('state_info') or '')[:80]),
+                          mech='join-completed-twice')
         started = (b is None and a['state'] in ('RUNNING', 'DELAYED')) or \
             (b is not None and b['state'] == 'WAITING' and
              a['state'] in ('RUNNING', 'SUCCESS'))
